@@ -5,6 +5,10 @@
        [name |-> STRING, k |-> "explicit", v |-> [neg, mag]]    NAME = <integer constant>
        [name |-> STRING, k |-> "implicit"]                      NAME            (previous + 1, or 0)
        [name |-> STRING, k |-> "ref", ref |-> i]                NAME = <name of the i-th item>, i earlier
+       [name |-> STRING, k |-> "char", sp |-> Seq(0..127), cneg |-> BOOLEAN]
+                                                                NAME = 'c' or NAME = -'c': an integer character
+                                                                constant; sp = the codes of the source characters
+                                                                between the quotes (<<92, 97>> for '\a')
    (integers are PlatformBV Z-values so that the true widths 32/64 can be used in trace
    validation; MC_Enum uses IntBits = 3, LongBits = 5).
 
@@ -16,7 +20,7 @@
    (_cffi_backend.c:6480), convert_cdata_to_enum_string (:2103), Recompiler._enum_ctx
    (recompiler.py:1116) with EnumExpr.as_python_expr / _cffi_prim_int.  Line numbers: snapshot 58a6019.                     *)
 EXTENDS PlatformBV
-CONSTANTS IntBits, LongBits, Variant     \* Variant: "faithful" | "fwddict" | "signle" | "rangele"
+CONSTANTS IntBits, LongBits, Variant     \* Variant: "faithful" | "fwddict" | "signle" | "rangele" | "rawesc"
 
 RECURSIVE FoldI(_, _, _, _)
 FoldI(Op(_, _, _), acc, s, i) == IF i > Len(s) THEN acc ELSE Bind(Op(acc, s[i], i), LAMBDA a : FoldI(Op, a, s, i + 1))
@@ -24,13 +28,39 @@ FoldI(Op(_, _, _), acc, s, i) == IF i > Len(s) THEN acc ELSE Bind(Op(acc, s[i], 
 (***************************************************************************)
 (* IDEAL                                                                   *)
 (***************************************************************************)
+\* C11 6.4.4.4: integer character constants.  p3/Table: the simple escape sequences \' \" \? \\ \a \b \f \n \r
+\* \t \v (values of the execution character set = ASCII: 5.2.2p2 alert, backspace, form feed, new line, carriage
+\* return, horizontal tab, vertical tab); p5/p6: octal escapes of 1-3 digits, hexadecimal escapes; p10: the value is
+\* that of an object of type char with that content converted to int (plain char is signed on this platform - gcc is
+\* validated against this rule first).  A spelling is a sequence of source character codes (ASCII).
+BSL == 92
+SimpleEsc == (39 :> 39) @@ (34 :> 34) @@ (63 :> 63) @@ (92 :> 92) @@ (97 :> 7) @@ (98 :> 8) @@ (102 :> 12)
+             @@ (110 :> 10) @@ (114 :> 13) @@ (116 :> 9) @@ (118 :> 11)
+OctDigit(c) == c \in 48..55
+HexDigit(c) == c \in 48..57 \/ c \in 65..70 \/ c \in 97..102
+HexVal(c) == IF c \in 48..57 THEN c - 48 ELSE IF c \in 97..102 THEN c - 87 ELSE c - 55
+RECURSIVE DigitsVal(_, _, _, _)
+DigitsVal(sp, i, base, acc) == IF i > Len(sp) THEN acc ELSE DigitsVal(sp, i + 1, base, acc * base + HexVal(sp[i]))
+\* the value of the escape / character as a non-negative number, -1 if the spelling is not a character constant
+CharNat(sp) ==
+  IF Len(sp) = 1 THEN (IF sp[1] \in 32..126 /\ sp[1] # 39 /\ sp[1] # BSL THEN sp[1] ELSE 0 - 1)
+  ELSE IF Len(sp) < 2 \/ sp[1] # BSL THEN 0 - 1
+  ELSE IF Len(sp) = 2 /\ sp[2] \in DOMAIN SimpleEsc THEN SimpleEsc[sp[2]]
+  ELSE IF Len(sp) <= 4 /\ \A i \in 2..Len(sp) : OctDigit(sp[i]) THEN DigitsVal(sp, 2, 8, 0)
+  ELSE IF Len(sp) \in 3..4 /\ sp[2] = 120 /\ \A i \in 3..Len(sp) : HexDigit(sp[i]) THEN DigitsVal(sp, 3, 16, 0)
+  ELSE 0 - 1
+CharDefined(sp) == CharNat(sp) \in 0..255                      \* gcc: "octal escape sequence out of range" beyond
+CharValue(sp) == Bind(CharNat(sp), LAMBDA n : IF n >= 128 THEN n - 256 ELSE n)
+CharItem(it) == IF it.cneg THEN Z(0 - CharValue(it.sp)) ELSE Z(CharValue(it.sp))
+
 \* C11 6.7.2.2p3: "= constant" gives the value; the first enumerator without "=" is 0, each
 \* later one is the previous value plus 1
 Values(items) ==
   LET Step(vals, it, i) ==
         Append(vals, CASE it.k = "explicit" -> ZOfJson(it.v)
                        [] it.k = "implicit" -> IF i = 1 THEN Z0 ELSE ZAdd(vals[i - 1], Z1)
-                       [] it.k = "ref"      -> vals[it.ref])
+                       [] it.k = "ref"      -> vals[it.ref]
+                       [] it.k = "char"     -> CharItem(it))
   IN FoldI(Step, <<>>, items, 1)
 
 AnyNeg(vals) == \E i \in 1..Len(vals) : vals[i].neg
@@ -47,6 +77,7 @@ Defined(items, vals) ==
   /\ \A i, j \in 1..Len(items) : i # j => items[i].name # items[j].name
   /\ \A i \in 1..Len(items) : /\ items[i].k = "ref" => items[i].ref \in 1..(i - 1)
                               /\ (items[i].k = "implicit" /\ i > 1) => vals[i - 1] \notin Tops
+                              /\ items[i].k = "char" => CharDefined(items[i].sp)
   /\ IF AnyNeg(vals) THEN AllFit(vals, LongBits, TRUE) ELSE AllFit(vals, LongBits, FALSE)
 
 \* GCC: unsigned int / unsigned long without negative values, int / long otherwise
@@ -64,11 +95,23 @@ StringOf(items, vals, q) ==
 (***************************************************************************)
 (* IMPLEMENTATION MODEL                                                    *)
 (***************************************************************************)
-\* cparser.py:957-979 _build_enum_type (Python integers: unbounded)
+\* cparser.py:50 _char_escapes and :928-934 _parse_constant for s[0] == "'":
+\*   len(s) == 3 or (len(s) == 4 and s[1] == "\\") else CDefError("invalid constant");
+\*   if len(s) == 4 and s[2] in _char_escapes: return _char_escapes[s[2]];  return ord(s[-2])
+CffiEscapes == (97 :> 7) @@ (98 :> 8) @@ (102 :> 12) @@ (110 :> 10) @@ (114 :> 13) @@ (116 :> 9) @@ (118 :> 11)
+               @@ [c \in 48..55 |-> c - 48]
+CffiCharOK(sp) == Len(sp) = 1 \/ (Len(sp) = 2 /\ sp[1] = BSL)
+CffiChar(sp) == IF Len(sp) = 2 /\ sp[2] \in DOMAIN CffiEscapes /\ Variant # "rawesc" THEN CffiEscapes[sp[2]]
+                ELSE sp[Len(sp)]
+\* does cdef() parse the declaration at all ("invalid constant" otherwise)
+CffiParses(items) == \A i \in 1..Len(items) : items[i].k = "char" => CffiCharOK(items[i].sp)
+
+\* cparser.py:957-979 _build_enum_type (Python integers: unbounded); UnaryOp '-' -> -self._parse_constant(...)
 CffiValues(items) ==
   LET Step(st, it, i) ==
         Bind(CASE it.k = "explicit" -> ZOfJson(it.v)              \* _parse_constant: literal
                [] it.k = "ref"      -> st.vals[it.ref]            \* ... or self._int_constants[name]
+               [] it.k = "char"     -> IF it.cneg THEN Z(0 - CffiChar(it.sp)) ELSE Z(CffiChar(it.sp))
                [] it.k = "implicit" -> st.next,
              LAMBDA v : [vals |-> Append(st.vals, v), next |-> ZAdd(v, Z1)])      \* nextenumvalue += 1
   IN FoldI(Step, [vals |-> <<>>, next |-> Z0], items, 1).vals
@@ -116,7 +159,7 @@ ModeBase(mode, vals) ==
   ELSE CffiBase(vals)
 
 \* the refinement statement for one declaration
-AgreeValues(items) == CffiValues(items) = Values(items)
+AgreeValues(items) == CffiParses(items) /\ CffiValues(items) = Values(items)
 AgreeBase(items) == \E vals \in {Values(items)} :
     Defined(items, vals) => \E b \in {CffiBase(vals)} : b.err = "" /\ [bits |-> b.bits, signed |-> b.signed] = GccBase(vals)
 AgreeString(items, queries) == \E vals \in {Values(items)} :
